@@ -3,9 +3,7 @@ package types
 import (
 	"bytes"
 	"fmt"
-	"io/ioutil"
 	"math/big"
-	"os"
 	"time"
 
 	"github.com/ethereum/go-ethereum/common"
@@ -187,15 +185,12 @@ func verifyHeader(
 // in a batch of parents (ascending order) to avoid looking those up from the
 // database. This is useful for concurrently verifying a batch of new headers.
 func VerifyCascadingFields(header Header) error {
-	cachedir, err := ioutil.TempDir("", "")
-	if err != nil {
-		fmt.Println(err)
-		return errEthashStopped
-	}
-	defer os.RemoveAll(cachedir)
+	// The verification cache is generated in memory (CacheDir == "" makes cache.generate skip the
+	// memory-mapped file): whether a header is accepted must not depend on the node's file system
+	// (an unusable TMPDIR made ioutil.TempDir fail and the header be rejected on that node only).
 	config := Config{
-		CacheDir:     cachedir,
-		CachesOnDisk: 1,
+		CacheDir:     "",
+		CachesOnDisk: 0,
 	}
 	ethash := New(config, nil, false)
 	defer ethash.Close()
